@@ -32,6 +32,7 @@ from ..mutate import mutate, remove_stmts, replace_expr, replace_stmt, parse_stm
 from ..model import AnalysisError
 from ..x_taint import flow_taint, expr_tainted, regex_guard, regex_cleaner, guards_in, detects_all, HelperSummaries, Guard, resolve_pattern
 from ..x_flow import expand_locals
+from ..x_peval import UNK, peval, try_fold, make_resolver, pure_self_methods
 from ..x_cookie import analyse as analyse_cookie, text_params
 
 from ..x_http import norm_func
@@ -285,13 +286,74 @@ def _list_guards(ck, fi):
     return out
 
 
+def _probe_final_guard(ck, fi):
+    """Concrete evaluation of write_headers (server mode) on responses with a lone CR / LF / NUL in the reason phrase,
+    in a header value and in a header name.  Returns (where, byte, written bytes) for every probe whose bytes reach
+    stream.write; raises AnalysisError if not even a clean response can be followed to the write."""
+    ps = fi.params()
+    if len(ps) < 4:
+        raise AnalysisError("write_headers signature changed")
+    sl, hd = ps[1], ps[2]
+    getall = [c for c in q.calls(fi.node) if isinstance(c.func, ast.Attribute) and c.func.attr == "get_all" and q.dotted(c.func.value) == hd]
+    if not getall:
+        raise AnalysisError("write_headers does not read the header lines through %s.get_all(): cannot probe the guard" % hd)
+    key = "call:" + q.unparse(getall[0])
+    writes = {n.id: c for n, c in call_sites(fi, "self.stream.write") if not isinstance(q.arg(c, 0), ast.Constant)}
+    if not writes:
+        raise AnalysisError("write_headers: stream.write(<header block>) not found")
+    known = {m: None for m in pure_self_methods(ck.repo, H1, "HTTP1Connection")}
+    known["_format_chunk"] = None
+    resolver = make_resolver(ck.repo, H1, "HTTP1Connection")
+
+    def run(reason, pairs):
+        seen = []
+
+        def hook(n, env):
+            if n.id in writes:
+                seen.append(try_fold(q.arg(writes[n.id], 0), env))
+            return None
+
+        init = {"self.is_client": False, "self._request_start_line.version": "HTTP/1.1", "self._request_start_line.method": "GET",
+                "self._disconnect_on_finish": False, sl + ".code": 200, sl + "[1]": 200, sl + "[2]": reason, sl + ".reason": reason,
+                hd: frozenset(n_ for n_, _v in pairs), key: tuple(pairs), "call:self.stream.closed()": False, ps[3]: None, "@resolve": resolver}
+        peval(fi.cfg, init, hook=hook, known_self_methods=known, pure_methods=("get_all",), track=lambda t: True)
+        return seen
+
+    clean = run("OK", (("Content-Length", "0"), ("X-Probe", "v")))
+    if not clean or any(v is UNK or not isinstance(v, bytes) for v in clean):
+        raise AnalysisError("write_headers: the written header block cannot be evaluated concretely (%r)" % (clean[:1],))
+    out = []
+    for byte in (LF, CR, NUL):
+        ch = chr(byte)
+        for where, reason, pairs in (("the reason phrase", "OK" + ch + "x", (("Content-Length", "0"),)),
+                                     ("a header value", "OK", (("Content-Length", "0"), ("X-Probe", "a" + ch + "b"))),
+                                     ("a header name", "OK", (("Content-Length", "0"), ("X" + ch + "Probe", "v")))):
+            for data in run(reason, pairs):
+                if data is UNK or not isinstance(data, bytes):
+                    raise AnalysisError("write_headers: probe result cannot be evaluated")
+                if ch.encode("latin1") in data.replace(b"\r\n", b""):
+                    out.append((where, byte, data))
+                    break
+    return out
+
+
 def _final_guard(ck):
     """Analyse the per-line guard of write_headers; returns the set of bytes it detects."""
     fi = F(ck, H1, "HTTP1Connection.write_headers")
     cfg = fi.cfg
     loops = _list_guards(ck, fi)
     if not loops:
-        raise AnalysisError("write_headers: no scan of the header lines with a regex was recognised (for-loop with a guard, next(filter(..)), any(..))")
+        # A guard of another shape (e.g. a test on the serialized block).  It cannot be *proved* by this rule, but it
+        # can be *refuted*: evaluate write_headers concretely on a response whose start line / a header line carries a
+        # lone CR or LF and see whether the bytes reach stream.write.  A counterexample is a violation; none found
+        # leaves the guard undecided (fail closed).
+        cex = _probe_final_guard(ck, fi)
+        for where, byte, data in cex:
+            ck.ob("C07.final-guard", fi, fi.node, False, "a lone %s in %s is rejected before the header block is written (concrete counterexample: write_headers hands %r to stream.write)" % (_fmt([byte]), where, data[:80]),
+                  construct="header block with a lone %s in %s reaches stream.write" % (_fmt([byte]), where))
+        if cex:
+            return set()  # nothing can be relied upon from a guard that was refuted
+        raise AnalysisError("write_headers: no scan of the header lines with a regex was recognised (for-loop with a guard, next(filter(..)), any(..)), and concrete probing found no counterexample: the guard is of a shape this rule cannot decide")
     writes = [(n, c) for n, c in call_sites(fi, "self.stream.write") if not isinstance(q.arg(c, 0), ast.Constant)]
     ck.floor("C07.final-guard", len(writes), 1, "stream.write(<header block>) in write_headers")
     detected = set()
@@ -574,6 +636,7 @@ MUTANTS = [
     ("header value validated stripped but returned raw", _in(WEB, RH + "._convert_header_value", replace_expr(lambda n: isinstance(n, ast.Call) and q.call_attr(n) == "fullmatch", lambda n: ast.Call(func=n.func, args=[parse_expr("retval.strip()")], keywords=[]))), "C07.value-chars"),
     ("header value check applied to the first 4096 characters only", _in(WEB, RH + "._convert_header_value", replace_expr(lambda n: isinstance(n, ast.Call) and q.call_attr(n) == "fullmatch", lambda n: ast.Call(func=n.func, args=[parse_expr("retval[:4096]")], keywords=[]))), "C07.value-chars"),
     ("server side scans only the status line (seeded C07-adv3)", _in(H1, "HTTP1Connection.write_headers", replace_stmt(lambda st: isinstance(st, ast.For) and "CR_OR_LF_RE" in _u(st), lambda st: [ast.For(target=st.target, iter=parse_expr("lines if self.is_client else lines[:1]"), body=st.body, orelse=[])])), "C07.final-guard"),
+    ("per-line guard replaced by a CRLF count on the serialized block (seeded C07-adv4: a lone CR or LF passes)", _in(H1, "HTTP1Connection.write_headers", lambda root: _block_level_guard(root)), "C07.final-guard"),
     ("final guard only logs", _in(H1, "HTTP1Connection.write_headers", _guard_logs_only), "C07.final-guard"),
     ("send_error stores the reason itself", _in(WEB, RH + ".send_error", replace_stmt(lambda st: "self.set_status(status_code, reason=reason)" in _u(st), lambda st: [parse_stmt("self._status_code = status_code"), parse_stmt("self._reason = reason or 'Unknown'")])), "C07.reason"),
 ]
@@ -597,4 +660,19 @@ def _guard_on_header_lines_only(root):
                             del body[j]
                             body[i:i + 1] = new
                             return True
+    return False
+
+
+def _block_level_guard(root):
+    for node in ast.walk(root):
+        body = getattr(node, "body", None)
+        if isinstance(body, list):
+            for i, st in enumerate(body):
+                if isinstance(st, ast.For) and "CR_OR_LF_RE" in _u(st):
+                    lst = _u(st.iter)
+                    body[i:i + 1] = [
+                        parse_stmt("_block = b'\\r\\n'.join(%s) + b'\\r\\n\\r\\n'" % lst),
+                        ast.parse("if _block.count(b'\\r\\n') != len(%s) + 1 or b'\\x00' in _block:\n    raise ValueError('Illegal characters in headers')" % lst).body[0],
+                    ]
+                    return True
     return False
